@@ -19,7 +19,7 @@ func TestMain(m *testing.M) {
 			"uniform 256..65535, raw float bits, string/bytes lengths 0/1/255/256/65535/65536; tuples/lists/dicts/sets/host objects "+
 			"nested to depth 4 with sizes 0..9 and 999/1000/1001/2000/2001/3000 at any position; refs to earlier or enclosing containers "+
 			"give sharing and cycles; tuple slices t[i:j] share the storage of an earlier tuple). Oracle: Iso(v, Decode(Encode(v))) incl. aliasing bijection, deterministic encoding, re-encode fixpoint; "+
-			"pair check: one-leaf mutation must not decode Equal; transient check: lists of 120-3000 host objects whose pickler allocates the argument container on every call, with a garbage collection forced every 10/50/200 calls, must still round-trip isomorphically. Non-trivial = value has a boundary scalar, a non-empty container or aliasing; "+
+			"pair check: one-leaf mutation must not decode Equal; transient check: lists of 120-3000 host objects whose pickler allocates the argument container on every call, with a garbage collection forced every 10/50/200 calls, must still round-trip isomorphically; transport check: values are read through a reader that is not an io.ByteReader and returns 1, 7 or 4096 bytes per call, with unrelated bytes after the pickle. Non-trivial = value has a boundary scalar, a non-empty container or aliasing; "+
 			"distinct by SHA-256 of the descriptor JSON.",
 		"sizes <= 3002 elements, strings <= 65537 bytes, memo ids < 65536",
 		"cycles passing through a host object's argument tuple are not generated here (NEWOBJ without BUILD cannot express them; see C08)",
